@@ -117,7 +117,9 @@ def run(prog, rep):
                             alt = alternation(v)
             want = set(tabs[fname]["_rdf_map"]) - ({"value"} if fname == "Property" else set())
             if alt is None:
-                raise AnalysisError("cannot extract the attribute alternation of %s.%s" % (cname, meth))
+                # the patterns are no longer written in the per entity methods (a shared, table driven parser): the layout free form
+                _alternations_by_content(prog, rep, fd, tabs, cls, qmod)
+                break
             rep.check(alt == want, "TAB-9", "%s.%s attributes" % (cname, meth), str(sorted(alt)),
                       "%s.%s accepts %s, the %s RDF table has %s (missing %s, extra %s)" % (cname, meth, sorted(alt), fname, sorted(want),
                                                                                          sorted(want - alt), sorted(alt - want)), f.where,
